@@ -578,3 +578,51 @@ func globAny(globs, s string) bool {
 
 // FieldNameOf renders "Type.Field" of a field address.
 func FieldNameOf(fa *ssa.FieldAddr) string { return typeField(fa) }
+
+// MapStoreKeys (K12): the keys stored into the map(s) whose canonical form matches
+// mapGlob are exactly the wanted ones (canonical forms, globs allowed) - e.g. the
+// visited set of a graph search is seeded with BOTH start nodes and extended with
+// every node that is appended to a result list.
+func (c *Ctx) MapStoreKeys(fn *ssa.Function, mapGlob string, want []string, why string) {
+	if fn == nil {
+		return
+	}
+	fnName := load.QualName(fn)
+	got := map[string]ssa.Instruction{}
+	for _, f := range WithClosures(fn) {
+		for _, b := range f.Blocks {
+			for _, ins := range b.Instrs {
+				mu, ok := ins.(*ssa.MapUpdate)
+				if !ok || !Glob(mapGlob, CanonD(mu.Map, 6)) {
+					continue
+				}
+				got[CanonD(mu.Key, 9)] = ins
+			}
+		}
+	}
+	c.Sites += len(got)
+	for _, w := range want {
+		found := ""
+		for g := range got {
+			if Glob(w, g) {
+				found = g
+				break
+			}
+		}
+		what := "key `" + short(w, 140) + "` is recorded in `" + mapGlob + "`"
+		if found != "" {
+			c.OK("K12", fnName, what, c.At(got[found]), why)
+			delete(got, found)
+		} else {
+			var have []string
+			for g := range got {
+				have = append(have, short(g, 160))
+			}
+			sort.Strings(have)
+			c.Fail("K12", fnName, what, "-", "no such store ("+why+"); keys stored: "+strings.Join(have, " ; "))
+		}
+	}
+	for g, ins := range got {
+		c.Fail("K12", fnName, "only the listed keys are recorded in `"+mapGlob+"`", c.At(ins), "unexpected key `"+short(g, 200)+"` ("+why+")")
+	}
+}
